@@ -159,10 +159,50 @@ def shard_table(idx, nshards):
     return res
 
 
-def extra(ctx):
-    from vlib.common import run_shards
+def st_pool():
+    from hypothesis import strategies as st
 
-    res = run_shards(shard_table, [(i, 16) for i in range(16)])
+    prefill = st.lists(st.one_of(st.just(("c",)), st.tuples(st.just("l"), st.integers(0, 9))), max_size=12)
+    cycle = st.tuples(st.sampled_from([0, 0, 0, 1, 2, 3, 4, 5, 6, 50, 99]), st.integers(0, 2), st.sampled_from([0, 0, 1, 2]))
+    return st.tuples(st.booleans(), prefill, st.integers(0, 3), st.lists(cycle, min_size=1, max_size=8))
+
+
+def shard_pool(seed, n):
+    """The id of a departed client is reusable at once, also when it is the only free dynamic id."""
+    from vlib.common import Result, Violation, hyp_run
+    from vlib.script import pool_cycle_ops, run_script
+
+    res = Result()
+
+    def body(v):
+        tc, prefill, refusals, cycles = v
+        cfg = {"timecode": tc, "timing": True, "log": "silent"}
+        ops, must = pool_cycle_ops(monitor_setup(), 2, prefill, refusals, cycles)
+        try:
+            run_script(cfg, ops, DEPARTURE.oracles, "C07", res, harvest=lambda w, r: None)
+        except Violation as e:
+            raise Violation(e.key, e.what, {"kind": "script", "cfg": cfg, "ops": ops})
+        res.count("full-pool-histories")
+        res.count("full-pool-departure-and-reuse", len(cycles))
+        for pick, way, extra_ref in cycles:
+            res.shape("pool", min(pick, 7), way, extra_ref, min(refusals, 2))
+
+    hyp_run(body, st_pool(), seed, n, res)
+    return res
+
+
+def shard_extra(kind, *a):
+    return shard_table(*a) if kind == "table" else shard_pool(*a)
+
+
+def extra(ctx):
+    from vlib.common import derive_seed, run_shards
+
+    n = ctx.scale(3, 40)
+    res = run_shards(shard_extra, [("table", i, 16) for i in range(16)] + [("pool", derive_seed(ctx.seed, 700 + i), n) for i in range(16)])
+    res.notes.append("full dynamic-id pool: all 100 dynamic ids assigned (after generated connects/departures that move the rotating "
+                     "start), 0-3 requests against the full pool, then generated cycles in which the k-th most recently assigned "
+                     "holder leaves (DISCONNECT/FIN/RST) and a new request for a dynamic id must be accepted at once")
     res.notes.append("sub-domain enumerated completely: 7 protocol stages x every way of leaving (DISCONNECT, FIN/RST clean, after 5 "
                      "byte offsets of a frame, discovered on write with EPIPE/ECONNRESET/delayed failure, injected failure at 7 byte "
                      "offsets of the outgoing frame) x (alone | with a second departing module of 3 stages x 3 ways) x 3 service "
